@@ -117,7 +117,8 @@ def gen_case(run_seed: int, index: int, tier: str) -> dict:
     for _ in range(nops):
         r = rng.random()
         if r < p_reset:
-            ops.append(["reset"])
+            # half of the resets are not followed by a read-out (reading is an operation too: it may refresh what an object remembers)
+            ops.append(["reset", "quiet"] if rng.random() < 0.5 else ["reset"])
         elif r < p_reset + p_compute:
             ops.append(["compute"])
         elif r < p_reset + p_compute + 0.08:
@@ -159,6 +160,19 @@ def gen_case(run_seed: int, index: int, tier: str) -> dict:
         ops.insert(len(ops) if long_stream else rng.randrange(len(ops) + 1), ["bigupdate", rng.choice([17, 20]) * 1000 * 1000, rng.choice(["alldiff", "half", "equal"] if not long_stream else ["alldiff", "half"])])
         for _ in range(300):
             ops.append(["update", [rng.randrange(npool)], "2d"])
+    if rng.random() < 0.15:
+        # a second stream of exactly the same size as the first follows a reset (epoch after epoch of equal length), read out only
+        # once it is complete: what it returns is the second stream's value, not the first one's
+        nrow = rng.choice([1, 1, 2, 3, 5, 8])
+        ops.append(["reset"])
+        ops.append(["update", [rng.randrange(npool) for _ in range(nrow)], "2d"])
+        ops.append(["compute"])
+        ops.append(["reset", "quiet"])
+        cut = rng.randrange(0, nrow)
+        second = [rng.randrange(npool) for _ in range(nrow)]
+        if cut:
+            ops.append(["update", second[:cut], "2d"])
+        ops.append(["update", second[cut:], rng.choice(["2d", "flat"])])
     ops.append(["compute"])
     case["ops"] = ops
     return case
@@ -444,6 +458,8 @@ def execute(case: dict) -> RunResult:
             for k, o in objs.items():
                 o.reset()
                 ref[k] = [0, 0]
+                if len(op) > 1 and op[1] == "quiet":
+                    continue
                 got = float(o.compute())
                 if not _close(got, fresh_val[k]):
                     violate(cname[k], "reset", f"compute() right after reset() = {got!r}; a fresh object gives {fresh_val[k]!r}")
